@@ -122,6 +122,32 @@ func c14ServerExact(t *testing.T, dbPath string, size int, gen uint64) (s *serve
 	return s, n
 }
 
+// c14OldDB writes a legacy leases.db with n leases into work and returns what
+// its migration must leave in leases.json, stated without the code under test.
+func c14OldDB(t *testing.T, work string, n int) (want []byte) {
+	old := []*leaseJSON{}
+	leases := []*dbLease{}
+	for i := 0; i < n; i++ {
+		host := fmt.Sprintf("old%03d", i)
+		old = append(old, &leaseJSON{HWAddr: []byte{1, 2, 3, 4, 5, byte(i)}, IP: []byte{10, 0, 0, byte(9 + i)}, Hostname: host, Expiry: 1900000000 + int64(i)})
+		leases = append(leases, &dbLease{
+			Expiry:   time.Unix(1900000000+int64(i), 0).Format(time.RFC3339),
+			Hostname: host,
+			HWAddr:   net.HardwareAddr{1, 2, 3, 4, 5, byte(i)}.String(),
+			IP:       netip.AddrFrom4([4]byte{10, 0, 0, byte(9 + i)}),
+		})
+	}
+	b, _ := json.Marshal(old)
+	if err := os.WriteFile(filepath.Join(work, dbFilename), b, 0o644); err != nil {
+		t.Fatal(err)
+	}
+	want, err := json.Marshal(&dataLeases{Version: dataVersion, Leases: leases})
+	if err != nil {
+		t.Fatal(err)
+	}
+	return want
+}
+
 func TestVerifC14(t *testing.T) {
 	s := verifc14.Start(t, "dhcpd")
 	if s == nil {
@@ -158,6 +184,20 @@ func TestVerifC14(t *testing.T) {
 				c.Kind = "writefile"
 				c.SaveInjected("dbStore", srv.dbStore)
 			})
+		}
+		// ... and the migration of the legacy database: the write of leases.json
+		// fails at its fsync resp. rename, the legacy leases.db must stay
+		s.TmpInDstDir()
+		for i, n := range []int{2, 40} {
+			work := s.Dir(fmt.Sprintf("imig%d", i))
+			data := s.Dir(fmt.Sprintf("imig%d/data", i))
+			want := c14OldDB(t, work, n)
+			s.Case(fmt.Sprintf("inject-%s-migrate-%d", s.Inject, i), filepath.Join(data, dataFilename), nil,
+				[]string{"dhcpd", "failed-save", "fail-" + s.Inject, "dst-absent", "tmp-in-dstdir", "migrateDB", "upgrade-on-start"}, func(c *verifc14.Case) {
+					c.SaveMigrate("migrateDB", filepath.Join(work, dbFilename), verifc14.MigPresent, "", 0, want, func() error {
+						return migrateDB(&ServerConfig{WorkDir: work, DataDir: data})
+					})
+				})
 		}
 		return
 	}
@@ -235,30 +275,10 @@ func TestVerifC14(t *testing.T) {
 		}
 	})
 	// migration of the old leases.db (what runs at every start, in Create):
-	// writeDB(data/leases.json), then the old file is removed
-	oldDB := func(work string, n int) (want []byte) {
-		var old []*leaseJSON
-		leases := []*dbLease{}
-		for i := 0; i < n; i++ {
-			host := fmt.Sprintf("old%03d", i)
-			old = append(old, &leaseJSON{HWAddr: []byte{1, 2, 3, 4, 5, byte(i)}, IP: []byte{10, 0, 0, byte(9 + i)}, Hostname: host, Expiry: 1900000000 + int64(i)})
-			leases = append(leases, &dbLease{
-				Expiry:   time.Unix(1900000000+int64(i), 0).Format(time.RFC3339),
-				Hostname: host,
-				HWAddr:   net.HardwareAddr{1, 2, 3, 4, 5, byte(i)}.String(),
-				IP:       netip.AddrFrom4([4]byte{10, 0, 0, byte(9 + i)}),
-			})
-		}
-		b, _ := json.Marshal(old)
-		if err := os.WriteFile(filepath.Join(work, dbFilename), b, 0o644); err != nil {
-			t.Fatal(err)
-		}
-		want, err := json.Marshal(&dataLeases{Version: dataVersion, Leases: leases})
-		if err != nil {
-			t.Fatal(err)
-		}
-		return want
-	}
+	// writeDB(data/leases.json), then, only if that succeeded, the old file is
+	// removed.  The lease data live in two paths: every call goes through
+	// SaveMigrate (monitor on BOTH paths; described to the migration model).
+	oldDB := func(work string, n int) (want []byte) { return c14OldDB(t, work, n) }
 	nm := 0
 	migDirs := func() (work, data, dst string) {
 		nm++
@@ -266,28 +286,31 @@ func TestVerifC14(t *testing.T) {
 		data = s.Dir(fmt.Sprintf("mig%d/data", nm))
 		return work, data, filepath.Join(data, dataFilename)
 	}
+	mig := func(work, data string) func() error {
+		return func() error { return migrateDB(&ServerConfig{WorkDir: work, DataDir: data}) }
+	}
+	migCls := func(extra ...string) []string {
+		return append([]string{"dhcpd", "tmp-in-dstdir", "migrateDB", "upgrade-on-start"}, extra...)
+	}
 	{
 		work, data, dst := migDirs()
+		legacy := filepath.Join(work, dbFilename)
 		want := oldDB(work, 1)
-		s.Case("migrate-db", dst, nil, []string{"dhcpd", "dst-absent", "tmp-in-dstdir", "bytes", "migrateDB", "upgrade-on-start"}, func(c *verifc14.Case) {
-			c.Want(want)
-			c.Save("migrateDB", func() error { return migrateDB(&ServerConfig{WorkDir: work, DataDir: data}) })
-			if _, err := os.Stat(filepath.Join(work, dbFilename)); err == nil {
-				c.Fail("migrateDB succeeded but the legacy %s is still there", dbFilename)
-			}
+		s.Case("migrate-db", dst, nil, migCls("dst-absent", "bytes"), func(c *verifc14.Case) {
+			c.SaveMigrate("migrateDB", legacy, verifc14.MigPresent, "", 0, want, mig(work, data))
+			// the next start finds nothing to migrate
+			c.SaveMigrate("migrateDB-again", legacy, verifc14.MigAbsent, "", 0, nil, mig(work, data))
 		})
 		// start-up with BOTH files present (an earlier start was interrupted
 		// between the write and the removal): leases.json is replaced, atomically
 		want = oldDB(work, 2)
-		s.Case("migrate-db-present", dst, nil, []string{"dhcpd", "dst-present", "tmp-in-dstdir", "bytes", "migrateDB", "upgrade-on-start"}, func(c *verifc14.Case) {
-			c.Want(want)
-			c.Save("migrateDB", func() error { return migrateDB(&ServerConfig{WorkDir: work, DataDir: data}) })
+		s.Case("migrate-db-present", dst, nil, migCls("dst-present", "bytes"), func(c *verifc14.Case) {
+			c.SaveMigrate("migrateDB", legacy, verifc14.MigPresent, "", 0, want, mig(work, data))
 		})
 		// start-up as a whole: migrate, load what was migrated, first store
 		want = oldDB(work, 3)
-		s.Case("start-up", dst, nil, []string{"dhcpd", "dst-present", "tmp-in-dstdir", "migrateDB", "upgrade-on-start", "multi-save"}, func(c *verifc14.Case) {
-			c.Want(want)
-			c.Save("migrateDB", func() error { return migrateDB(&ServerConfig{WorkDir: work, DataDir: data}) })
+		s.Case("start-up", dst, nil, migCls("dst-present", "multi-save"), func(c *verifc14.Case) {
+			c.SaveMigrate("migrateDB", legacy, verifc14.MigPresent, "", 0, want, mig(work, data))
 			srv := c14Server(t, dst, 0, 0, 30)
 			if err := srv.dbLoad(); err != nil {
 				t.Errorf("start-up: dbLoad: %v", err)
@@ -297,6 +320,82 @@ func TestVerifC14(t *testing.T) {
 			}
 			c14AddLeases(t, srv, 100, 5, 12, 30)
 			c14Store(t, c, "dbStore-after-load", srv)
+		})
+	}
+	// legacy files there is nothing to take from: an empty table (migrated: an
+	// empty leases.json), "null" (no table: nothing to do, the file stays), not
+	// JSON (error, the file stays), no descriptor to open it with (error)
+	for _, sc := range []struct {
+		name    string
+		content string
+		state   int
+		fault   string
+	}{
+		{"migrate-empty-table", "[]", verifc14.MigPresent, ""},
+		{"migrate-null", "null", verifc14.MigNull, ""},
+		{"migrate-garbage", "{\"leases\": 1", verifc14.MigGarbage, ""},
+		{"migrate-legacy-unreadable", "", verifc14.MigUnreadable, "nofile"},
+	} {
+		work, data, dst := migDirs()
+		legacy := filepath.Join(work, dbFilename)
+		var want, want4 []byte
+		if sc.content == "" {
+			want4 = oldDB(work, 4)
+		} else {
+			if err := os.WriteFile(legacy, []byte(sc.content), 0o644); err != nil {
+				t.Fatal(err)
+			}
+			want, _ = json.Marshal(&dataLeases{Version: dataVersion, Leases: []*dbLease{}})
+		}
+		s.Case(sc.name, dst, nil, migCls("dst-absent", "bytes"), func(c *verifc14.Case) {
+			c.SaveMigrate("migrateDB", legacy, sc.state, sc.fault, 0, want, mig(work, data))
+			if sc.state == verifc14.MigUnreadable {
+				// ... and with descriptors again the same start migrates
+				c.SaveMigrate("migrateDB-retry", legacy, verifc14.MigPresent, "", 0, want4, mig(work, data))
+			}
+		})
+	}
+	// the data directory is not there when the migration runs (home.run calls
+	// dhcpd.Create before it creates the data directory), resp. is a regular
+	// file: the temporary file cannot be created, the legacy database must
+	// stay; the next start, with the directory in place, migrates it.  Once
+	// through migrateDB, once through the constructor the program calls.
+	for i, viaCreate := range []bool{false, true} {
+		nm++
+		work := s.Dir(fmt.Sprintf("mig%d", nm))
+		data := filepath.Join(work, "data")
+		dst := filepath.Join(data, dataFilename)
+		legacy := filepath.Join(work, dbFilename)
+		want := oldDB(work, 2+30*i)
+		name, what := "fail-migrate-no-data-dir", "missing"
+		if viaCreate {
+			name, what = "fail-migrate-data-dir-is-file", "a regular file"
+			// made before the case begins: not an operation of the save
+			if err := os.WriteFile(data, nil, 0o644); err != nil {
+				t.Fatal(err)
+			}
+		}
+		run := mig(work, data)
+		if viaCreate {
+			run = func() error {
+				_, err := Create(&ServerConfig{WorkDir: work, DataDir: data, ConfigModified: func() {}})
+				return err
+			}
+		}
+		s.Case(name, dst, nil, migCls("dst-absent", "failed-save", "fail-open", "fail-no-data-dir"), func(c *verifc14.Case) {
+			c.Info["data_dir"] = what
+			c.SaveMigrate("migrateDB-no-dir", legacy, verifc14.MigPresent, "nodir", 0, want, run)
+		})
+		if viaCreate {
+			if err := os.Remove(data); err != nil {
+				t.Fatal(err)
+			}
+		}
+		if err := os.MkdirAll(data, 0o755); err != nil {
+			t.Fatal(err)
+		}
+		s.Case(name+"-retry", dst, nil, migCls("dst-absent"), func(c *verifc14.Case) {
+			c.SaveMigrate("migrateDB-retry", legacy, verifc14.MigPresent, "", 0, want, run)
 		})
 	}
 
@@ -345,33 +444,84 @@ func TestVerifC14(t *testing.T) {
 		})
 	}
 	s.TmpInDstDir()
-	for _, present := range []bool{false, true} {
+	for i, sc := range []struct {
+		name    string
+		present bool
+		n       int
+		limit   func(size int) uint64
+	}{
+		{"fail-migrate-absent", false, 30, func(sz int) uint64 { return uint64(sz / 2) }},
+		{"fail-migrate-present", true, 30, func(sz int) uint64 { return uint64(sz / 2) }},
+		{"fail-migrate-first-write", false, 3, func(int) uint64 { return 0 }},
+		{"fail-migrate-last-byte", true, 12, func(sz int) uint64 { return uint64(sz - 1) }},
+	} {
 		work, data, dst := migDirs()
-		want := oldDB(work, 30)
-		cls := []string{"dhcpd", "failed-save", "migrateDB", "upgrade-on-start", "tmp-in-dstdir"}
-		name := "fail-migrate-absent"
-		if present {
-			if err := c14Server(t, dst, 2, 6, 60).dbStore(); err != nil {
+		legacy := filepath.Join(work, dbFilename)
+		want := oldDB(work, sc.n)
+		cls := migCls("failed-save")
+		if sc.present {
+			if err := c14Server(t, dst, 2, 6, uint64(60+i)).dbStore(); err != nil {
 				t.Fatal(err)
 			}
 			cls = append(cls, "dst-present")
-			name = "fail-migrate-present"
 		} else {
 			cls = append(cls, "dst-absent")
 		}
-		s.Case(name, dst, nil, cls, func(c *verifc14.Case) {
-			if err := c.SaveLimited("migrateDB-limited", uint64(len(want)/2), func() error {
-				return migrateDB(&ServerConfig{WorkDir: work, DataDir: data})
-			}); err == nil {
-				c.Fail("migrateDB under a file size limit reported success")
-			}
-			if _, err := os.Stat(filepath.Join(work, dbFilename)); err != nil {
-				c.Fail("migrateDB failed to write %s but removed the legacy %s: the leases are lost", dataFilename, dbFilename)
-			}
-			c.Want(want)
-			c.Save("migrateDB-retry", func() error { return migrateDB(&ServerConfig{WorkDir: work, DataDir: data}) })
+		s.Case(sc.name, dst, nil, cls, func(c *verifc14.Case) {
+			lim := sc.limit(len(want))
+			c.Info["limit"], c.Info["size"] = lim, len(want)
+			c.SaveMigrate("migrateDB-limited", legacy, verifc14.MigPresent, "limit", lim, want, mig(work, data))
+			c.SaveMigrate("migrateDB-retry", legacy, verifc14.MigPresent, "", 0, want, mig(work, data))
 		})
 	}
+	// random migrations: table size, what is at the destination, the fault
+	for k := 0; k < s.Scale(6, 40); k++ {
+		rr := r.Fork(uint64(9000 + k))
+		work, data, dst := migDirs()
+		legacy := filepath.Join(work, dbFilename)
+		n := rr.Intn(60)
+		if rr.Chance(1, 3) {
+			n = rr.Intn(4)
+		}
+		want := oldDB(work, n)
+		cls := []string{"dhcpd", "migrateDB", "upgrade-on-start", "random"}
+		if rr.Bool() {
+			s.TmpShared()
+			cls = append(cls, "tmp-in-tmpdir")
+		} else {
+			s.TmpInDstDir()
+			cls = append(cls, "tmp-in-dstdir")
+		}
+		if rr.Bool() {
+			if err := c14Server(t, dst, 1+rr.Intn(3), 6, uint64(100+k)).dbStore(); err != nil {
+				t.Fatal(err)
+			}
+			cls = append(cls, "dst-present")
+		} else {
+			cls = append(cls, "dst-absent")
+		}
+		fault, lim := "", uint64(0)
+		switch rr.Intn(4) {
+		case 0:
+			fault, lim = "limit", uint64(rr.Intn(len(want)))
+			cls = append(cls, "failed-save")
+		case 1:
+			fault = "nofile"
+			cls = append(cls, "failed-save")
+		}
+		s.Case(fmt.Sprintf("random-migrate-%d", k), dst, nil, cls, func(c *verifc14.Case) {
+			c.Info["leases"], c.Info["fault"], c.Info["limit"] = n, fault, lim
+			if fault != "" {
+				st := verifc14.MigPresent
+				if fault == "nofile" {
+					st = verifc14.MigUnreadable
+				}
+				c.SaveMigrate("migrateDB-"+fault, legacy, st, fault, lim, want, mig(work, data))
+			}
+			c.SaveMigrate("migrateDB", legacy, verifc14.MigPresent, "", 0, want, mig(work, data))
+		})
+	}
+	s.TmpInDstDir()
 
 	// ---- creation of the temporary file fails (no descriptor to be had: EMFILE)
 	for i, present := range []bool{true, false} {
